@@ -58,6 +58,11 @@ Definition kname (k:lkind) : string :=
 (* operand order: code then array (forEach, count) or array then code (apply, select, findIf) *)
 Definition kca (k:lkind) : bool := match k with KForEach | KCount => true | _ => false end.
 
+(* lazy && / and, || / or with a code block on the right: the left value that makes the right side unnecessary *)
+Definition lazy_skip (n:string) : option bool :=
+  if orb (String.eqb n "&&") (String.eqb n "and") then Some false
+  else if orb (String.eqb n "||") (String.eqb n "or") then Some true else None.
+
 (* the first instruction of a (non-empty) block is a plain push or a variable read: true of every block whose first
    statement does not start with a nular operator; the step that takes a loop round again executes it *)
 Definition leaf_first (b:list stmt) : Prop :=
@@ -96,6 +101,10 @@ Inductive zev : sstate -> expr -> rvalue -> sstate -> Prop :=
 | ZLoopAC s n a x body x0 arr k s1 s2 acc s3 : kname k = lower n -> kca k = false -> leaf_first body ->
     zev s a (RArr (x0 :: arr)) s1 -> zev s1 x (RCode body) s2 ->
     ziter k s2 (x0 :: arr) 0 body (kinit k) acc s3 -> zev s (EBinary n a x) acc s3
+| ZLazySkip s n a b x sk s1 s2 : lazy_skip (lower n) = Some sk -> zev s a (RBool sk) s1 -> zev s1 b (RCode x) s2 ->
+    zev s (EBinary n a b) (RBool sk) s2
+| ZLazyEnter s n a b x sk s1 s2 out s3 : lazy_skip (lower n) = Some sk -> zev s a (RBool (negb sk)) s1 -> zev s1 b (RCode x) s2 ->
+    zblock (enter s2 []) RNil x out s3 -> zev s (EBinary n a b) (val_of out) (pop_scope s3)
 with zevs : sstate -> list expr -> list rvalue -> sstate -> Prop :=
 | ZNil s : zevs s [] [] s
 | ZCons s e v s1 l vs s2 : zev s e v s1 -> nonnil v -> zevs s1 l vs s2 -> zevs s (e :: l) (v :: vs) s2
@@ -556,6 +565,18 @@ Proof.
       eexists. cbn [enact]. fold c1. rewrite (POP _ _ eq_refl). cbn [cv]. rewrite (NE eq_refl). reflexivity.
 Qed.
 
+Lemma lazy_vm m sk code r c : lazy_skip m = Some sk ->
+  op_binary m (VBool (negb sk)) (VCode code) r c = Ok (r, push_frame c (mk_frame (cur_ns c) code None None []), VNil) /\
+  op_binary m (VBool sk) (VCode code) r c = Ok (r, c, VBool sk).
+Proof.
+  unfold lazy_skip. intros H.
+  destruct (String.eqb m "&&") eqn:E1; [apply String.eqb_eq in E1; subst m; inversion H; subst; split; reflexivity|].
+  destruct (String.eqb m "and") eqn:E2; [apply String.eqb_eq in E2; subst m; inversion H; subst; split; reflexivity|].
+  destruct (String.eqb m "||") eqn:E3; [apply String.eqb_eq in E3; subst m; inversion H; subst; split; reflexivity|].
+  destruct (String.eqb m "or") eqn:E4; [apply String.eqb_eq in E4; subst m; inversion H; subst; split; reflexivity|].
+  discriminate H.
+Qed.
+
 (* the loop frame as the operator creates it *)
 Definition kbeh0 (k:lkind) (arrV:list value) : behavior :=
   match k with
@@ -915,6 +936,45 @@ Proof.
     split; [exact M4|]. split; [exact EV4|].
     split; [eapply moved_trans; [exact MV1|eapply moved_trans; [exact MV2|eapply moved_trans; [apply (moved_set_pos f2 (S (f_pos f2)))|apply kept_moved; exact K4]]]|].
     split; [rewrite (kept_pos _ _ K4); cbn; rewrite P2, P1; lia|eapply kept_all_trans; [exact K1|eapply kept_all_trans; eassumption]].
+  - (* lazy operator, right side not needed *) intros s n a b x sk s1 s2 HN HA IHa HB IHb r c f rest pre post MA EC EP.
+    rewrite compile_binary in *. rewrite !app_length. cbn [length]. rewrite <- !app_assoc in EC.
+    post_intro (IHa r c f rest pre (compile_expr b ++ [IBinary (lower n)] ++ post) MA EC EP) r1 c1 f1 rest1 S1 M1 EV1 MV1 P1 K1.
+    destruct (after_operands_code f f1 pre _ _ MV1 EC EP P1) as [EC1 EP1].
+    post_intro (IHb r1 c1 f1 rest1 (pre ++ compile_expr a) ([IBinary (lower n)] ++ post) M1 EC1 EP1) r2 c2 f2 rest2 S2 M2 EV2 MV2 P2 K2.
+    destruct (after_operands_code f1 f2 _ _ _ MV2 EC1 EP1 P2) as [EC2 EP2].
+    destruct M2 as (G2 & EF2 & MM2 & B2 & D2). destruct MA as (_ & _ & _ & B & _).
+    rewrite EV1 in EV2.
+    set (c0 := set_values (set_frames c2 (set_pos f2 (S (f_pos f2)) :: rest2)) (c_values c)).
+    destruct (binary_run r2 c2 f2 rest2 _ _ (lower n) (cv (RBool sk)) (cv (RCode x)) (c_values c) c0 (cv (RBool sk)) G2 EF2 EC2 EP2 EV2) as [S3 G3].
+    { rewrite (moved_base _ _ MV2), (moved_base _ _ MV1); exact B. } { discriminate. } { discriminate. }
+    { rewrite lower_idem. exact (proj2 (lazy_vm _ sk _ r2 c0 HN)). }
+    { destruct G2 as (_ & _ & _ & _ & _ & _ & SU); exact SU. }
+    eexists _, _, _, rest2. split; [eapply steps_trans; [exact S1|eapply steps_trans; [exact S2|exact S3]]|]. split.
+    + split; [exact G3|]. split; [reflexivity|]. split; [apply match_upd, match_set_pos; exact MM2|].
+      split; [cbn; rewrite (moved_base _ _ MV2), (moved_base _ _ MV1); lia|rewrite defects_upd_cur; exact D2].
+    + split; [reflexivity|]. split; [eapply moved_trans; [exact MV1|eapply moved_trans; [exact MV2|apply moved_set_pos]]|].
+      split; [cbn; rewrite P2, P1; lia|eapply kept_all_trans; eassumption].
+  - (* lazy operator, right side evaluated *) intros s n a b x sk s1 s2 out s3 HN HA IHa HB IHb HX IHx r c f rest pre post MA EC EP.
+    rewrite compile_binary in *. rewrite !app_length. cbn [length]. rewrite <- !app_assoc in EC.
+    post_intro (IHa r c f rest pre (compile_expr b ++ [IBinary (lower n)] ++ post) MA EC EP) r1 c1 f1 rest1 S1 M1 EV1 MV1 P1 K1.
+    destruct (after_operands_code f f1 pre _ _ MV1 EC EP P1) as [EC1 EP1].
+    post_intro (IHb r1 c1 f1 rest1 (pre ++ compile_expr a) ([IBinary (lower n)] ++ post) M1 EC1 EP1) r2 c2 f2 rest2 S2 M2 EV2 MV2 P2 K2.
+    destruct (after_operands_code f1 f2 _ _ _ MV2 EC1 EP1 P2) as [EC2 EP2].
+    destruct M2 as (G2 & EF2 & MM2 & B2 & D2). destruct MA as (_ & _ & _ & B & _).
+    rewrite EV1 in EV2.
+    set (c0 := set_values (set_frames c2 (set_pos f2 (S (f_pos f2)) :: rest2)) (c_values c)).
+    destruct (binary_run r2 c2 f2 rest2 _ _ (lower n) (cv (RBool (negb sk))) (cv (RCode x)) (c_values c)
+                (push_frame c0 (mk_frame (cur_ns c0) (compile_block x) None None (mvars []))) VNil G2 EF2 EC2 EP2 EV2) as [S3 G3].
+    { rewrite (moved_base _ _ MV2), (moved_base _ _ MV1); exact B. } { discriminate. } { discriminate. }
+    { rewrite lower_idem. exact (proj1 (lazy_vm _ sk _ r2 c0 HN)). }
+    { destruct G2 as (_ & _ & _ & _ & _ & _ & SU); exact SU. }
+    destruct (scope_run_z s2 [] x out s3 _ c0 (set_pos f2 (S (f_pos f2))) rest2 (scope_ends_of_body _ _ _ _ _ IHx) G3) as (r4 & c4 & fc4 & rest4 & S4 & M4 & EV4 & K4 & KR4).
+    { rewrite defects_upd_cur; exact D2. } { reflexivity. } { apply match_upd, match_set_pos; exact MM2. }
+    { cbn. rewrite (moved_base _ _ MV2), (moved_base _ _ MV1); exact B. }
+    eexists _, _, fc4, rest4. split; [eapply steps_trans; [exact S1|eapply steps_trans; [exact S2|eapply steps_trans; [exact S3|exact S4]]]|].
+    split; [exact M4|]. split; [exact EV4|].
+    split; [eapply moved_trans; [exact MV1|eapply moved_trans; [exact MV2|eapply moved_trans; [apply (moved_set_pos f2 (S (f_pos f2)))|apply kept_moved; exact K4]]]|].
+    split; [rewrite (kept_pos _ _ K4); cbn; rewrite P2, P1; lia|eapply kept_all_trans; [exact K1|eapply kept_all_trans; eassumption]].
   - (* no elements *) intros s r c f rest pre post MA EC EP. split; [|reflexivity].
     exists r, c, f, rest. split; [apply StepsRefl|]. split; [exact MA|]. split; [reflexivity|]. split; [apply moved_refl|].
     split; [cbn; lia|apply kept_all_refl].
@@ -1158,6 +1218,18 @@ Proof. destruct k; intros H; try discriminate H; reflexivity. Qed.
 Lemma kvars_iter k i x : (if kwith k then [("_foreachindex", RNum (Z.of_nat i)); ("_x", x)] else [("_x", x)]) = kvars k i x.
 Proof. destruct k; reflexivity. Qed.
 
+Lemma lazy_ref m sk f F s b : lazy_skip m = Some sk ->
+  eval_binary (S f) s m (RBool (negb sk)) (RCode b) (in_scope_f F) plain_scope_f = in_scope_f F s (plain_scope_f s []) b /\
+  eval_binary (S f) s m (RBool sk) (RCode b) (in_scope_f F) plain_scope_f = (ONormal (RBool sk), s).
+Proof.
+  unfold lazy_skip. intros H.
+  destruct (String.eqb m "&&") eqn:E1; [apply String.eqb_eq in E1; subst m; inversion H; subst; split; reflexivity|].
+  destruct (String.eqb m "and") eqn:E2; [apply String.eqb_eq in E2; subst m; inversion H; subst; split; reflexivity|].
+  destruct (String.eqb m "||") eqn:E3; [apply String.eqb_eq in E3; subst m; inversion H; subst; split; reflexivity|].
+  destruct (String.eqb m "or") eqn:E4; [apply String.eqb_eq in E4; subst m; inversion H; subst; split; reflexivity|].
+  discriminate H.
+Qed.
+
 Theorem ref_runs_z :
   (forall s e v s', zev s e v s' -> exists f0, forall f, f0 <= f -> eval f s e = (ONormal v, s')) /\
   (forall s l vs s', zevs s l vs s' -> exists f0, forall f, f0 <= f -> forall acc, go_arr f s l acc = (ONormal (RArr (rev acc ++ vs)), s')) /\
@@ -1241,6 +1313,13 @@ Proof.
     destruct f as [|f]; [lia|].
     change (eval_binary (S f) s2 (kname k) (RArr (x0 :: arr)) (RCode body) (in_scope_f (S f)) plain_scope_f = (ONormal acc, s3)).
     rewrite (eval_binary_loop_ac f (S f) s2 k body _ HK). apply IHi; [lia|cbn; lia].
+  - (* lazy operator, right side not needed *) intros s n a b x sk s1 s2 HN HA [fa IHa] HB [fb IHb]. exists (S (S (fa + fb))). intros [|[|f]] L; try lia.
+    rewrite eval_S_binary, (IHa (S f)), (IHb (S f)) by lia.
+    exact (proj2 (lazy_ref _ sk f (S f) s2 x HN)).
+  - (* lazy operator, right side evaluated *) intros s n a b x sk s1 s2 out s3 HN HA [fa IHa] HB [fb IHb] HX [fx IHx]. exists (S (S (fa + fb + fx))). intros [|[|f]] L; try lia.
+    rewrite eval_S_binary, (IHa (S f)), (IHb (S f)) by lia.
+    transitivity (eval_binary (S f) s2 (lower n) (RBool (negb sk)) (RCode x) (in_scope_f (S f)) plain_scope_f); [reflexivity|].
+    rewrite (proj1 (lazy_ref _ sk f (S f) s2 x HN)). apply in_scope_out. apply IHx. lia.
   - (* no elements *) intros s. exists 0. intros f _ acc. cbn. rewrite app_nil_r. reflexivity.
   - (* elements *) intros s e v s1 l vs s2 HE [fe IHe] NN HL [fl IHl]. exists (fe + fl). intros f L acc.
     cbn [go_arr]. rewrite (IHe f) by lia. fold (go_arr f).
